@@ -31,6 +31,7 @@ Trees(d) == IF d = 0 THEN <<LeafA, LeafB>>
 StrPool == <<<<>>, <<97>>, <<39>>, <<34>>, <<92>>, <<97, 34, 32, 79, 82, 32, 49, 61, 49, 32, 45, 45, 32>>, <<67, 58, 92, 100, 105, 114, 92>>,
              <<34, 34>>, <<92, 34>>, <<37, 92, 95, 37>>, <<10>>, <<233, 26195>>, <<120, 92, 92>>, <<96>>, <<39, 39>>, <<1>>>>
 NumPool == <<NInt(0), NInt(1), NInt(-1), Fin(5, 1, 0), Fin(-1, 1, 0), NInt(1073741823),
+             Fin(3, 0, 1), Fin(2, 0, -1), Fin(201, 6, 0),       \* need all 53 bits / many digits
              [k |-> "big", neg |-> FALSE, d |-> <<9,2,2,3,3,7,2,0,3,6,8,5,4,7,7,5,8,0,8>>, r |-> <<57,50,50,51,51,55,50,48,51,54,56,53,52,55,55,54,48,48,48>>],
              [k |-> "big", neg |-> FALSE, d |-> <<1,0,0,0,0,0,0,0,0,0,0,0,0,0,0,0,0,0,0,0>>, r |-> <<49,48,48,48,48,48,48,48,48,48,48,48,48,48,48,48,48,48,48,48>>],
              [k |-> "big", neg |-> FALSE, d |-> <<2,0,0,0,0,0,0,0,0,0,0,0,0,0,0,0,0,0,0,0>>, r |-> <<50,48,48,48,48,48,48,48,48,48,48,48,48,48,48,48,48,48,48,48>>]>>
